@@ -16,7 +16,7 @@ Require Import String.
 Require Import Arith Lia List Bool ZArith QArith Qcanon Permutation.
 From TK Require Import Mat_Sums Mat_Core Mat_Qc Mat_EigSelect EigSelect Mat_EigSelect_Tie
                        Lle_Model Lle_Spec Lle_Proof_Triplets Lle_Proof_Lle Lle_Proof_Ltsa
-                       Lle_Proof_Hlle Lle_Proof_Embed.
+                       Lle_Proof_Hlle Lle_Proof_Embed Lle_Proof_Gs Lle_Proof_KyFan.
 Import ListNotations.
 Local Open Scope nat_scope.
 
@@ -223,6 +223,18 @@ Theorem C08_hlle_null_vector :
 Proof. exact @hlle_null_vector. Qed.
 Print Assumptions C08_hlle_null_vector.
 
+(* Gram-Schmidt as written (sqrt-free form that is executed): the local matrix
+   H H^T annihilates the constant vector and the tangent coordinates whenever no column
+   degenerates (u.u <> 0) *)
+Theorem C08_hlle_local_annihilates :
+  forall (F : Type) (Fo : FieldOps F) (Ff : IsField F) (k d : nat) (prev V : mat F) (a : nat),
+    gs_nondegenerate (hlle_gs_sf false k d prev V) ->
+    a < k ->
+    sumn k (fun b => hlle_local_sf false k d prev V a b) = 0%F /\
+    (forall t, t < d -> sumn k (fun b => (hlle_local_sf false k d prev V a b * V b t)%F) = 0%F).
+Proof. exact @hlle_local_annihilates. Qed.
+Print Assumptions C08_hlle_local_annihilates.
+
 (* ---------------------------------------------------------------------- *)
 (* 4. selection of the eigenpairs (generated table) and the embedding      *)
 (* ---------------------------------------------------------------------- *)
@@ -324,6 +336,43 @@ Qed.
 (* ---------------------------------------------------------------------- *)
 (* 5. optimality (Ky Fan) and the affine clause                            *)
 (* ---------------------------------------------------------------------- *)
+(* Ky Fan's inequality (Spectral_KyFan.ky_fan_min, any ordered field, every N and d) gives: for
+   a FULL orthonormal eigendecomposition (E^T E = E E^T = I, M E = E diag lam, lam ascending)
+   whose column 0 is constant, EVERY Y with orthonormal columns that sum to zero has
+   tr(Y^T M Y) >= lam_1 + ... + lam_d, the value C08_embed_cost shows the returned embedding
+   attains.  The inequality itself is proved at full strength; the theorem is named `_partial`
+   because the existence of such a decomposition for the assembled matrix (spectral theorem
+   over the reals; the solver returning one) is the oracle contract, not a theorem here. *)
+Theorem C08_cost_minimal_partial :
+  forall (N d : nat) (M E Y : mat Qc) (lam : vec Qc) (c0 : Qc),
+    eig_contract N M E lam ->
+    meq N N (mmul N E (mtrans E)) mI ->
+    (forall i, i < N -> E i 0 = c0) ->
+    (forall i j, i <= j -> j < N -> qle (lam i) (lam j)) ->
+    orthonormal_cols N d Y -> centred_cols N d Y -> 1 + d <= N ->
+    qle (sumn d (fun c => lam (1 + c))) (cost N d M Y).
+Proof. exact ky_fan_min_centred. Qed.
+Print Assumptions C08_cost_minimal_partial.
+
+Example C08_cost_minimal_nonvacuous :
+  eig_contract 4 c08_M4 c08_E4 c08_lam4 /\
+  meq 4 4 (mmul 4 c08_E4 (mtrans c08_E4)) mI /\
+  (forall i, i < 4 -> c08_E4 i 0 = qfrac 1 2) /\
+  (forall i j, i <= j -> j < 4 -> qle (c08_lam4 i) (c08_lam4 j)) /\
+  orthonormal_cols 4 2 (select_smallest 1 2 c08_E4) /\
+  centred_cols 4 2 (select_smallest 1 2 c08_E4).
+Proof.
+  destruct C08_embed_nonvacuous as [HC [Hs [Hc [Hd Hl]]]].
+  split; [exact HC|]. split; [apply meq_by_compute; vm_compute; reflexivity|].
+  split; [intros i Hi; destruct i as [|[|[|[|i]]]]; try lia; reflexivity|].
+  split.
+  - intros i j H2 H3.
+    destruct i as [|[|[|[|i]]]]; try lia; destruct j as [|[|[|[|j]]]]; try lia; vm_compute; discriminate.
+  - split.
+    + apply (embed_orthonormal 4 2 1 c08_M4 c08_E4 c08_lam4 HC). lia.
+    + apply (embed_centred 4 2 1 c08_M4 c08_E4 c08_lam4 (qfrac 1 8)); assumption.
+Qed.
+
 (* "for samples on a d-flat every LTSA / HLLE column is an affine function of the intrinsic
    coordinates": proved here is the assembly half — if every local matrix annihilates the
    constant vector and the local coordinates, every affine function of the coordinates is an
